@@ -8,7 +8,10 @@ lists, any number of handle slots and any element type; the proofs are in `Lemma
 -/
 import GivaroModel.Lemmas.Array0Ops
 import GivaroModel.Lemmas.Array0Contents
+import GivaroModel.Lemmas.Array0Sim
 import GivaroModel.Lemmas.FreeListInv
+import GivaroModel.Lemmas.Array0PoolInv
+import GivaroModel.Lemmas.RefPtrEmbed
 import GivaroModel.Model.Leak
 namespace Givaro.Props.C17
 open Givaro.Model Givaro.Model.Array0
@@ -111,6 +114,120 @@ theorem size_zero_ok (n : Nat) (ops : List (Op α)) (h : Nat) (hn : h < n) (t : 
   · rw [(good_destroy I hn').2]; rfl
 
 example : ((step (after Int 1 [.build 0 3 7]) (.resize 0 0)).hs 0).psz = 3 ∧ contents (step (after Int 1 [.build 0 3 7]) (.resize 0 0)) 0 = [] := by decide
+
+/-! ### the simulation -/
+section Simulation
+open Givaro.Spec.Array0Spec
+
+/-- **Simulation.** For every operation history of any length over any number of handles, forgetting the reference
+    counts, the liveness flags and the capacities of the Array0 model (`abs`) yields exactly the state the value-semantics
+    machine of `Spec/Array0Spec.lean` reaches on the same history (`toV`: both constructors-by-sharing become `share`,
+    both deep copies `valueCopy`/`copy`).  The machine has no counters and never releases anything, so the theorem says
+    that counting and releasing are invisible: the model behaves as if storage were garbage collected. -/
+theorem array_simulates_value_semantics (n : Nat) (ops : List (Op α)) :
+    abs (run (init α n) ops) = vrun (vinit α n) (ops.map toV) := by
+  rw [sim_run ops (inv_init (α := α) n), abs_init]
+
+/-- **Outputs.** Everything the container lets a client observe is a function of the value-semantics state:
+    size, contents, which handles alias, and the reference count (= the number of handles of the alias group, > 0);
+    and the model has not faulted. -/
+theorem outputs_equal (n : Nat) (ops : List (Op α)) (h : Nat) (hn : h < n) :
+    let s := run (init α n) ops
+    let a := vrun (vinit α n) (ops.map toV)
+    s.fault = false ∧ (s.hs h).size = (a.hs h).size ∧ contents s h = vvalue a h ∧
+    (∀ g, (s.hs h).d = (s.hs g).d ↔ (a.hs h).grp = (a.hs g).grp) ∧
+    (∀ c, (s.hs h).cnt = some c → ∃ g, (a.hs h).grp = some g ∧ s.cval c = (vmembers a g : Int) ∧ 0 < vmembers a g) := by
+  have S := array_simulates_value_semantics (α := α) n ops
+  obtain ⟨I, en⟩ := after_inv (α := α) n ops
+  have hn' : h < (run (init α n) ops).n := by rw [en]; exact hn
+  dsimp only
+  rw [← S]
+  refine ⟨I.nofault, rfl, rfl, fun g => Iff.rfl, ?_⟩
+  intro c hc
+  obtain ⟨c', b, h1, h2, h3, _⟩ := (I.wf h hn').2 (cnt_some_psz I hn' hc)
+  have : c' = c := by rw [hc] at h1; exact (Option.some.inj h1).symm
+  subst this
+  have m := cval_eq_members I hn' hc h2 h3
+  have r := I.rc c' h3
+  have pos : 0 < vmembers (abs (after α n ops)) b := by
+    have r1 := r.1; have r2 := r.2; omega
+  exact ⟨b, h2, m, pos⟩
+
+example : vvalue (vrun (vinit Int 2) ([Op.build 0 3 7, .resize 0 1, .pushBack 0 9, .logcopy 1 0, .resize 1 3].map toV)) 1 = [7, 9, 0] := by decide
+
+/-- Corollary (isolation after a physical copy): after the deep-copy constructor, an element write through either handle
+    is invisible through the other. -/
+theorem write_invisible_after_physical_copy (n : Nat) (ops : List (Op α)) (h g i : Nat) (v : α) (hn : h < n) (gn : g < n)
+    (ne : h ≠ g) :
+    let s1 := step (after α n ops) (.withCopy h g)
+    contents (step s1 (.write h i v)) g = contents (after α n ops) g ∧
+    contents (step s1 (.write g i v)) h = contents (after α n ops) g := by
+  obtain ⟨I, en⟩ := after_inv (α := α) n ops
+  have hn' : h < (after α n ops).n := by rw [en]; exact hn
+  have gn' : g < (after α n ops).n := by rw [en]; exact gn
+  have e1 : step (after α n ops) (.withCopy h g) = ctorWithCopy (after α n ops) h g :=
+    step_eq_core I _ (by intro k hk; simp [Op.handles] at hk; omega)
+  have G := ctorWithCopy_good I hn' gn'
+  have so := ctorWithCopy_sole I hn' gn' ne
+  have ch := ctorWithCopy_contents I hn' gn' ne
+  have cg : contents (ctorWithCopy (after α n ops) h g) g = contents (after α n ops) g :=
+    contents_others G (fun q => ne q.symm) gn'
+  dsimp only
+  rw [e1]
+  have hn1 : h < (ctorWithCopy (after α n ops) h g).n := by rw [G.frame.1]; exact hn'
+  have gn1 : g < (ctorWithCopy (after α n ops) h g).n := by rw [G.frame.1]; exact gn'
+  have nd : ∀ b, ((ctorWithCopy (after α n ops) h g).hs h).d = some b → ((ctorWithCopy (after α n ops) h g).hs g).d ≠ some b :=
+    fun b hb => sole_excl G.inv hn1 so hb g (fun q => ne q.symm) gn1
+  have w1 : ∀ k k' : Nat, k < (ctorWithCopy (after α n ops) h g).n → k' < (ctorWithCopy (after α n ops) h g).n →
+      step (ctorWithCopy (after α n ops) h g) (.write k i v) = write (ctorWithCopy (after α n ops) h g) k i v :=
+    fun k _ kn _ => step_eq_core G.inv _ (by intro x hx; simp [Op.handles] at hx; omega)
+  constructor
+  · rw [w1 h g hn1 gn1, write_contents G.inv hn1 i v g gn1, if_neg, cg]
+    intro ⟨q, lt⟩
+    have hp := size_pos_psz G.inv hn1 (by omega)
+    obtain ⟨_, b, _, h2, _⟩ := (G.inv.wf h hn1).2 hp
+    exact nd b h2 (by rw [q, h2])
+  · rw [w1 g h gn1 hn1, write_contents G.inv gn1 i v h hn1, if_neg, ch]
+    intro ⟨q, lt⟩
+    have hp := size_pos_psz G.inv gn1 (by omega)
+    obtain ⟨_, b, _, h2, _⟩ := (G.inv.wf g gn1).2 hp
+    exact nd b (by rw [q, h2]) h2
+
+example : contents (run (init Int 2) [.build 0 2 7, .withCopy 1 0, .write 1 0 9]) 0 = [7, 7] := by decide
+
+/-- Corollary (aliasing after a logical copy): after `logcopy`, an in-range element write through the new handle is
+    seen, as the same write, through the source. -/
+theorem write_visible_after_logical_copy (n : Nat) (ops : List (Op α)) (h g i : Nat) (v : α) (hn : h < n) (gn : g < n)
+    (ne : h ≠ g) (hi : i < ((after α n ops).hs g).size) :
+    let s1 := step (after α n ops) (.logcopy h g)
+    contents (step s1 (.write h i v)) g = (contents (after α n ops) g).set i v := by
+  obtain ⟨I, en⟩ := after_inv (α := α) n ops
+  have hn' : h < (after α n ops).n := by rw [en]; exact hn
+  have gn' : g < (after α n ops).n := by rw [en]; exact gn
+  have e1 : step (after α n ops) (.logcopy h g) = logcopy (after α n ops) h g :=
+    step_eq_core I _ (by intro k hk; simp [Op.handles] at hk; omega)
+  have G := logcopy_good I hn' gn'
+  have cg : contents (logcopy (after α n ops) h g) g = contents (after α n ops) g :=
+    contents_others G (fun q => ne q.symm) gn'
+  have S := sim_logcopy I hn' gn'
+  have hh : ((abs (logcopy (after α n ops) h g)).hs h) = ((abs (logcopy (after α n ops) h g)).hs g) := by
+    rw [S]; unfold vshare; rw [if_neg ne]; dsimp only
+    show vupd _ h _ h = vupd _ h _ g
+    unfold vupd; simp
+  have hd : ((logcopy (after α n ops) h g).hs h).d = ((logcopy (after α n ops) h g).hs g).d := congrArg VHandle.grp hh
+  have hsz : ((logcopy (after α n ops) h g).hs h).size = ((logcopy (after α n ops) h g).hs g).size := congrArg VHandle.size hh
+  have gsame : (logcopy (after α n ops) h g).hs g = (after α n ops).hs g := G.frame.2 g (fun q => ne q.symm)
+  dsimp only
+  rw [e1]
+  have hn1 : h < (logcopy (after α n ops) h g).n := by rw [G.frame.1]; exact hn'
+  have gn1 : g < (logcopy (after α n ops) h g).n := by rw [G.frame.1]; exact gn'
+  rw [step_eq_core G.inv _ (by intro x hx; simp [Op.handles] at hx; omega)]
+  show contents (write (logcopy (after α n ops) h g) h i v) g = _
+  rw [write_contents G.inv hn1 i v g gn1, if_pos ⟨hd.symm, by rw [hsz, gsame]; exact hi⟩, cg]
+
+example : contents (run (init Int 2) [.build 0 2 7, .logcopy 1 0, .write 1 0 9]) 0 = [9, 7] := by decide
+
+end Simulation
 
 /-! ### value semantics -/
 
@@ -227,6 +344,240 @@ theorem freed_block_not_live (ops : List FreeList.Op) :
 example : (crun Client.init [.alloc 0 40, .alloc 1 40, .free 0]).pool.free 32 = [0] := by decide +kernel
 
 end Pool
+
+/-! ### push_back of an element of the array itself -/
+
+/-- `A.push_back(A[i])`: the model of the repaired `push_back` (the argument is copied before the storage moves) never
+    faults and appends the value cell `i` had, after every history, whether or not the storage moves or is shared. -/
+theorem push_back_of_own_element (n : Nat) (ops : List (Op α)) (h i : Nat) (hn : h < n)
+    (hi : i < ((after α n ops).hs h).size) :
+    ∃ v, (contents (after α n ops) h)[i]? = some v ∧
+      (step (after α n ops) (.pushBackSelf h i)).fault = false ∧
+      contents (step (after α n ops) (.pushBackSelf h i)) h = contents (after α n ops) h ++ [v] := by
+  obtain ⟨I, en⟩ := after_inv (α := α) n ops
+  have hn' : h < (after α n ops).n := by rw [en]; exact hn
+  obtain ⟨v, hv, ev⟩ := pushBackSelf_eq I hn' hi
+  refine ⟨v, hv, (step_inv I _).1.nofault, ?_⟩
+  rw [step_eq_core I _ (by intro k hk; simp [Op.handles] at hk; omega)]
+  show contents (pushBackSelf (after α n ops) h i) h = _
+  rw [ev]; exact pushBack_contents I hn' v
+
+example : contents (after Int 1 [.build 0 2 7, .write 0 1 9, .pushBackSelf 0 1]) 0 = [7, 9, 9] := by decide
+
+/-- The body the pinned tree had (`reallocate(_size+1); back() = a;`) reads the argument through a reference into the block
+    that `reallocate` has just destroyed and released, whenever the handle is the sole owner and has no spare capacity:
+    the smallest failing history is `Array0<T> A(1, t); A.push_back(A[0]);`. -/
+theorem push_back_of_own_element_before_repair_faults :
+    (pushBackSelfOld (after Int 1 [.build 0 1 7]) 0 0).fault = true ∧
+    (pushBackSelfOld (after Int 2 [.build 0 2 7, .logcopy 1 0]) 0 1).fault = false ∧          -- shared: the old block survives
+    (pushBackSelfOld (after Int 1 [.build 0 2 7, .resize 0 1]) 0 0).fault = false := by decide  -- spare capacity: no move
+
+/-! ### Array0 composed with the pool -/
+section PoolComposition
+open Givaro.Model.Array0Pool Givaro.Model.FreeList
+
+/-- the composed machine (Array0 over the pool, `w` = sizeof(T)) after a history -/
+abbrev pafter (α : Type) [Inhabited α] (w n : Nat) (ops : List (Op α)) : PState α := prun w (pinit α n) ops
+
+/-- every block the history obtains is at most the largest class (`TabSize[511]` = 8054880 bytes); above it
+    `GivMMFreeList::allocate` throws and the history is outside the property -/
+def FitsPool (α : Type) [Inhabited α] (w n : Nat) (ops : List (Op α)) : Prop :=
+  ∀ b, b < (after α n ops).dnext → ((after α n ops).ddata b).length * w ≤ tab 511
+
+theorem pafter_pinv (w n : Nat) (ops : List (Op α)) (hf : FitsPool α w n ops) : PInv (pafter α w n ops) :=
+  prun_pinv w ops (pinv_init n) hf
+
+theorem pafter_arr (w n : Nat) (ops : List (Op α)) : (pafter α w n ops).arr = after α n ops := prun_arr w ops _
+
+/-- **No block is handed out twice while live.** After any history, every live data block and every live counter cell
+    of the container is backed by a physical block of the pool that is on no free list, a slot of the pool client is
+    occupied exactly while its abstract block is live, and no physical block backs two abstract blocks at once
+    (in particular a data block and a counter never overlap). -/
+theorem pool_no_double_handout (w n : Nat) (ops : List (Op α)) (hf : FitsPool α w n ops) :
+    let p := pafter α w n ops
+    (∀ b, (physD p b).isSome = (after α n ops).dlive b) ∧ (∀ c, (physC p c).isSome = (after α n ops).clive c) ∧
+    (∀ k pb, p.pool.slot k = some pb → ∀ i, pb ∉ p.pool.pool.free i) ∧
+    (∀ k k' pb, p.pool.slot k = some pb → p.pool.slot k' = some pb → k = k') := by
+  have P := pafter_pinv (α := α) w n ops hf
+  have A := pafter_arr (α := α) w n ops
+  dsimp only
+  refine ⟨fun b => ?_, fun c => ?_, fun k pb hk i => P.ci.pi.hfree pb i ⟨k, hk⟩, P.ci.inj⟩
+  · rw [← A]; exact P.link.d b
+  · rw [← A]; exact P.link.c c
+
+/-- Every handle with capacity is therefore backed by two distinct physical blocks that are not on any free list. -/
+theorem handle_blocks_are_held (w n : Nat) (ops : List (Op α)) (hf : FitsPool α w n ops) (h : Nat) (hn : h < n)
+    (hp : ((after α n ops).hs h).psz ≠ 0) :
+    let p := pafter α w n ops
+    ∃ c b pc pb, ((after α n ops).hs h).cnt = some c ∧ ((after α n ops).hs h).d = some b ∧
+      physC p c = some pc ∧ physD p b = some pb ∧ pc ≠ pb ∧
+      (∀ i, pc ∉ p.pool.pool.free i) ∧ (∀ i, pb ∉ p.pool.pool.free i) := by
+  obtain ⟨hd, hc, hfree, hinj⟩ := pool_no_double_handout (α := α) w n ops hf
+  obtain ⟨c, b, h1, h2, h3, h4, _⟩ := (no_release_while_referenced (α := α) n ops h hn).2 hp
+  dsimp only at *
+  have sc := hc c; rw [h3] at sc
+  have sd := hd b; rw [h4] at sd
+  obtain ⟨pc, hpc⟩ := Option.isSome_iff_exists.mp sc
+  obtain ⟨pb, hpb⟩ := Option.isSome_iff_exists.mp sd
+  refine ⟨c, b, pc, pb, h1, h2, hpc, hpb, ?_, hfree _ pc hpc, hfree _ pb hpb⟩
+  intro q
+  have := hinj (keyC c) (keyD b) pc hpc (by rw [q]; exact hpb)
+  unfold keyC keyD at this; omega
+
+/-- **Every released block returns to the free list of its size class exactly once.** No free list contains a block
+    twice, no block is on two lists, a block waits on the list of the class it was allocated from (a table index), and
+    every physical block the pool ever obtained is either held by exactly one live abstract block or on exactly one
+    free list — never both, never neither (no double free, no lost block). -/
+theorem pool_released_exactly_once (w n : Nat) (ops : List (Op α)) (hf : FitsPool α w n ops) :
+    let pl := (pafter α w n ops).pool
+    (∀ i, (pl.pool.free i).Nodup) ∧
+    (∀ i j b, b ∈ pl.pool.free i → b ∈ pl.pool.free j → i = j) ∧
+    (∀ i b, b ∈ pl.pool.free i → pl.pool.idx b = i ∧ i < 512) ∧
+    (∀ b, b < pl.pool.next → (Held pl b ∨ ∃ i, b ∈ pl.pool.free i)) ∧
+    (∀ b i, Held pl b → b ∉ pl.pool.free i) := by
+  have P := pafter_pinv (α := α) w n ops hf
+  exact ⟨P.ci.pi.nodup, P.ci.pi.disj, fun i b hb => ⟨P.ci2.home i b hb, P.ci2.cls i b hb⟩, P.ci2.cons,
+    fun b i hb => P.ci.pi.hfree b i hb⟩
+
+/-- **Size-class lookups are in range.** The class index stored in the header of every block in use is a table index
+    and the class is large enough for the bytes that were asked for. -/
+theorem pool_class_index_in_range (w n : Nat) (ops : List (Op α)) (hf : FitsPool α w n ops) (k pb : Nat) :
+    let pl := (pafter α w n ops).pool
+    pl.slot k = some pb → pl.pool.idx pb < 512 ∧ pl.sz k ≤ tab (pl.pool.idx pb) :=
+  (pafter_pinv (α := α) w n ops hf).ci2.fit k pb
+
+theorem step_destroy_store (s : State α) (h : Nat) :
+    (step s (.destroy h)).dnext = s.dnext ∧ (step s (.destroy h)).ddata = s.ddata := by
+  unfold step
+  repeat' split
+  all_goals first
+    | exact ⟨rfl, rfl⟩
+    | exact ⟨destroy_dnext s h, destroy_ddata s h⟩
+
+theorem run_destroys_store (hs : List Nat) : ∀ s : State α,
+    (run s (hs.map Op.destroy)).dnext = s.dnext ∧ (run s (hs.map Op.destroy)).ddata = s.ddata := by
+  induction hs with
+  | nil => intro s; exact ⟨rfl, rfl⟩
+  | cons h rest ih =>
+    intro s
+    have a := ih (step s (.destroy h))
+    have b := step_destroy_store s h
+    exact ⟨a.1.trans b.1, a.2.trans b.2⟩
+
+/-- **No leak at quiescence.** When, after any history, every handle is destroyed, no slot of the pool client is
+    occupied (live-block count 0) and every physical block the pool ever obtained from malloc is on a free list. -/
+theorem pool_quiescent_after_destroying_all (w n : Nat) (ops : List (Op α)) (hf : FitsPool α w n ops) :
+    let pl := (pafter α w n (ops ++ (List.range n).map Op.destroy)).pool
+    (∀ k, pl.slot k = none) ∧ (∀ b, b < pl.pool.next → ∃ i, b ∈ pl.pool.free i) := by
+  have split : after α n (ops ++ (List.range n).map Op.destroy) = run (after α n ops) ((List.range n).map Op.destroy) := by
+    show run _ _ = _; unfold run; rw [List.foldl_append]; rfl
+  have hf' : FitsPool α w n (ops ++ (List.range n).map Op.destroy) := by
+    intro b hb
+    rw [split] at hb ⊢
+    have st := run_destroys_store (List.range n) (after α n ops)
+    rw [st.1] at hb; rw [st.2]; exact hf b hb
+  have P := pafter_pinv (α := α) w n _ hf'
+  have A := pafter_arr (α := α) w n (ops ++ (List.range n).map Op.destroy)
+  obtain ⟨I, en⟩ := after_inv (α := α) n ops
+  obtain ⟨I2, n2, emp⟩ := destroyAll_empty n I (by omega)
+  rw [← split] at I2 n2 emp
+  have deadD : ∀ b, (after α n (ops ++ (List.range n).map Op.destroy)).dlive b = false := by
+    intro b
+    cases hl : (after α n (ops ++ (List.range n).map Op.destroy)).dlive b
+    · rfl
+    · obtain ⟨h, hn, hd, _⟩ := I2.down b hl
+      rw [emp h (by rw [n2, en] at hn; exact hn)] at hd; cases hd
+  have deadC : ∀ c, (after α n (ops ++ (List.range n).map Op.destroy)).clive c = false := by
+    intro c
+    cases hl : (after α n (ops ++ (List.range n).map Op.destroy)).clive c
+    · rfl
+    · have := (I2.rc c hl).2
+      obtain ⟨h, hn, hp⟩ := countBelow_pos (p := fun k => ((after α n (ops ++ (List.range n).map Op.destroy)).hs k).cnt == some c)
+        (after α n (ops ++ (List.range n).map Op.destroy)).n (by unfold sharers at this; omega)
+      rw [emp h (by rw [n2, en] at hn; exact hn)] at hp; simp [Handle.empty] at hp
+  have none : ∀ k, (pafter α w n (ops ++ (List.range n).map Op.destroy)).pool.slot k = none := by
+    intro k
+    have : occ (pafter α w n (ops ++ (List.range n).map Op.destroy)).pool k = false := by
+      rcases Nat.mod_two_eq_zero_or_one k with e | e
+      · have := P.link.d (k / 2); rw [A, deadD] at this; unfold keyD at this
+        have e2 : 2 * (k / 2) = k := by omega
+        rw [e2] at this; exact this
+      · have := P.link.c (k / 2); rw [A, deadC] at this; unfold keyC at this
+        have e2 : 2 * (k / 2) + 1 = k := by omega
+        rw [e2] at this; exact this
+    unfold occ at this
+    cases hk : (pafter α w n (ops ++ (List.range n).map Op.destroy)).pool.slot k
+    · rfl
+    · rw [hk] at this; cases this
+  refine ⟨none, fun b hb => ?_⟩
+  rcases P.ci2.cons b hb with ⟨k, hk⟩ | q
+  · rw [none k] at hk; cases hk
+  · exact q
+
+example : ((pafter Int 4 2 [.build 0 2 7, .logcopy 1 0, .resize 1 5, .destroy 0, .destroy 1]).pool.pool.free 7 = [0]) := by decide +kernel
+
+end PoolComposition
+
+/-! ### RefCountPtr -/
+section RefCountPtr
+
+/-- **`RefCountPtr<T>` is the one-block special case of `Array0<T>`.**  Running a history of constructions from a raw
+    pointer, copy constructions, assignments and destructions on the model of givpointer.h gives exactly the state obtained
+    by running `Array0(1, v)`, the NoCopy constructor, `logcopy` and `destroy()` on the Array0 model and reading a
+    one-cell array as a pointer (`proj`: object = data block = counter cell); the Array0 invariant holds throughout and
+    every array has exactly one cell. -/
+theorem refcountptr_is_one_block_array0 (n : Nat) (ops : List RefPtr.Op)
+    (hb : ∀ op, op ∈ ops → ∀ k, k ∈ op.slots → k < n) :
+    proj (erun (init Nat n) ops) = RefPtr.run RefPtr.St.init ops ∧ Inv (erun (init Nat n) ops) ∧
+    OneCell (erun (init Nat n) ops) ∧ (erun (init Nat n) ops).n = n := by
+  have R := erun_sim ops (inv_init (α := Nat) n) (onecell_init n) hb
+  exact ⟨by rw [R.2.2.2, proj_init], R.1, R.2.1, R.2.2.1⟩
+
+/-- Hence, for every history: a slot always points to a live object whose counter equals the number of slots that point
+    to it (and is positive), and every live object is pointed to by some slot (the last pointer deletes the object:
+    nothing leaks, nothing dangles, nothing is deleted twice). -/
+theorem refcountptr_counts_and_lifetimes (n : Nat) (ops : List RefPtr.Op)
+    (hb : ∀ op, op ∈ ops → ∀ k, k ∈ op.slots → k < n) :
+    let r := RefPtr.run RefPtr.St.init ops
+    (∀ k o, k < n → r.slot k = some o →
+      r.alive o = true ∧ r.cnt o = (countBelow (fun j => r.slot j == some o) n : Int) ∧ 1 ≤ countBelow (fun j => r.slot j == some o) n) ∧
+    (∀ o, r.alive o = true → ∃ k, k < n ∧ r.slot k = some o) := by
+  obtain ⟨P, I, E, en⟩ := refcountptr_is_one_block_array0 n ops hb
+  dsimp only
+  rw [← P]
+  have slot_iff : ∀ j o, j < n → (((proj (erun (init Nat n) ops)).slot j == some o) = (((erun (init Nat n) ops).hs j).cnt == some o)) := by
+    intro j o jn
+    have jn' : j < (erun (init Nat n) ops).n := by rw [en]; exact jn
+    show ((if ((erun (init Nat n) ops).hs j).psz = 0 then none else ((erun (init Nat n) ops).hs j).d) == some o) = _
+    by_cases jp : ((erun (init Nat n) ops).hs j).psz = 0
+    · rw [if_pos jp, (I.wf j jn').1 jp]; rfl
+    · rw [if_neg jp, (E.same j jn' jp).1]
+  constructor
+  · intro k o kn hk
+    have kn' : k < (erun (init Nat n) ops).n := by rw [en]; exact kn
+    have hk' : (if ((erun (init Nat n) ops).hs k).psz = 0 then none else ((erun (init Nat n) ops).hs k).d) = some o := hk
+    have kp : ((erun (init Nat n) ops).hs k).psz ≠ 0 := by
+      intro q; rw [if_pos q] at hk'; cases hk'
+    rw [if_neg kp] at hk'
+    obtain ⟨o', g1, g2, _, cl, dl, _⟩ := occupied I E kn' kp
+    have : o' = o := by rw [g2] at hk'; exact Option.some.inj hk'
+    subst this
+    have rc := I.rc o' cl
+    have cnt_eq : countBelow (fun j => (proj (erun (init Nat n) ops)).slot j == some o') n = sharers (erun (init Nat n) ops) o' := by
+      unfold sharers; rw [en]
+      exact countBelow_congr n (fun j jn => slot_iff j o' jn)
+    rw [cnt_eq]
+    exact ⟨dl, rc.1, rc.2⟩
+  · intro o ho
+    obtain ⟨h, hn, hd, hp⟩ := I.down o ho
+    exact ⟨h, by rw [← en]; exact hn, by
+      show (if ((erun (init Nat n) ops).hs h).psz = 0 then none else ((erun (init Nat n) ops).hs h).d) = some o
+      rw [if_neg hp, hd]⟩
+
+example : (RefPtr.run RefPtr.St.init [.new 0 5, .copy 0 1, .assign 0 0, .del 0]).cnt 0 = 1 ∧
+    (RefPtr.run RefPtr.St.init [.new 0 5, .copy 0 1, .assign 0 0, .del 0, .del 1]).alive 0 = false := by decide
+
+end RefCountPtr
 
 /-! ### allocation balance of the RecInt casts -/
 section Casts
